@@ -148,6 +148,29 @@ func CheckFile(src string) tsrc.Outcome {
 	return o
 }
 
+// judgeDir is the C08 oracle of a directory job. For every file of the
+// directory: what `templ fmt <dir>` left in it must be accepted and generate
+// the same program as the file did before (fileStep, as for a single file),
+// and must be byte for byte what formatting that file alone gives.
+func judgeDir(j tsrc.DirJob, res tsrc.DirResult, single func(string) (string, error)) (string, string) {
+	if res.Err1 != nil {
+		return "run-error", fmt.Sprintf("templ fmt <dir> fails although every file formats alone: %v", res.Err1)
+	}
+	for i, f := range j.Files {
+		g, err := tsrc.Gen(f.Src)
+		if err != nil {
+			continue
+		}
+		if cls, det := fileStep(g, res.After1[i]); cls != "" {
+			return cls, fmt.Sprintf("file %d of %d (workers=%d): %s", i+1, len(j.Files), j.Workers, det)
+		}
+		if alone, err := single(f.Src); err == nil && alone != res.After1[i] {
+			return "not-single", fmt.Sprintf("file %d of %d (workers=%d) is %s after the run, formatted alone it is %s", i+1, len(j.Files), j.Workers, core.Q(clip(res.After1[i], 300)), core.Q(clip(alone, 300)))
+		}
+	}
+	return "", ""
+}
+
 // fileStep compares what z generates (gz) with what its formatted form F generates.
 func fileStep(gz, F string) (class, detail string) {
 	gF, err := tsrc.Gen(F)
@@ -251,6 +274,8 @@ func Run(c *core.Ctx) {
 		progs = append(progs, tsrc.Prog{Origin: "impcell:" + cl.Name, Src: cl.Src})
 	}
 	rf.RunFile(progs)
+	// several files in one `templ fmt <dir>` run
+	tsrc.RunDirJobs(c, "templ fmt <dir> changes a program", func(src string) bool { return CheckFile(src).Class == "" }, judgeDir)
 	if !c.Quick() && c.ReplayFile == "" {
 		renderSample(c)
 	}
